@@ -82,6 +82,30 @@ Theorem C05_elected_leader_holds_its_proposal :
 Proof. exact on_elected_leader_holds. Qed.
 Print Assumptions C05_elected_leader_holds_its_proposal.
 
+(* from the leader's proposal message to the commit: the leader of v is in v holding (v, h) and has sent m; whenever m
+   makes the other members of Q accept the proposal in their present states (which the two acceptance theorems above
+   establish for a correct leader's NEW_VIEW / PREPREPARE and members whose view is not higher and that hold no
+   proposal for v), "m to every member, then their PREPAREs, then their COMMITs" is a run at whose end all of Q committed *)
+Theorem C05_proposal_delivered_then_commits_partial :
+  forall (H : N) (cm : committee), total cm < W64 ->
+  forall (honest : N -> bool) (cfg : N -> ncfg), (forall i, c_me (cfg i) = i) ->
+  forall st_wm st_shut st_fresh st_lead (v h : N) (Q : list N),
+  NoDup Q -> (forall i, In i Q -> good cm honest i) -> isQ_ids cm Q = true ->
+  (forall i, In i Q -> exists j, In j Q /\ j <> i /\ j <> leaderOf cm v) ->
+  forall run m, wrun H cm honest cfg st_wm st_shut st_fresh st_lead run -> In (leaderOf cm v) Q ->
+  joined H cm cfg st_wm st_shut st_fresh st_lead v h run (leaderOf cm v) ->
+  msg_height m = H -> msg_sender m = leaderOf cm v -> auth_msg H cm honest cfg st_wm st_shut st_fresh st_lead run m ->
+  (forall i, In i Q -> i <> leaderOf cm v ->
+     accepted (cfg i) (thandle (cfg i) None false (nstate H cm cfg st_wm st_shut st_fresh st_lead i run) m) v h) ->
+  exists ext, wrun H cm honest cfg st_wm st_shut st_fresh st_lead (run ++ deliveries_of_proposal cm v Q m ++ ext) /\
+    (forall g, In g (deliveries_of_proposal cm v Q m ++ ext) -> In (fst g) Q /\ exists m', snd g = TMsg m' None false) /\
+    forall i, In i Q ->
+      t_committed (tc_t (nstate H cm cfg st_wm st_shut st_fresh st_lead i (run ++ deliveries_of_proposal cm v Q m ++ ext))) = true /\
+      (t_committed (tc_t (nstate H cm cfg st_wm st_shut st_fresh st_lead i (run ++ deliveries_of_proposal cm v Q m))) = false ->
+       In (v, h) (D (nstate H cm cfg st_wm st_shut st_fresh st_lead i (run ++ deliveries_of_proposal cm v Q m ++ ext)))).
+Proof. exact proposal_delivered_then_commits. Qed.
+Print Assumptions C05_proposal_delivered_then_commits_partial.
+
 (* the two phases at one member, for every term state *)
 Theorem C05_prepare_quorum_prepares :
   forall c wm shut x v h ds en, ds <> [] -> tc_v x <= v -> (forall q, In q ds -> p_ok x v h q) ->
@@ -147,3 +171,9 @@ Theorem C05_sync_catch_up :
   (enter base m V <= snd m + T base V - T base (fst m))%Z.
 Proof. exact catch_up. Qed.
 Print Assumptions C05_sync_catch_up.
+
+Theorem C05_proposal_example :
+  exists ext, wrun 1 cm4 honest4 cfg4 nowm noshut fresh0 lead1 ([] ++ deliveries_of_proposal cm4 0 Q3 ppA ++ ext) /\
+    forall i, In i Q3 -> In (0, hA) (D (nstate 1 cm4 cfg4 nowm noshut fresh0 lead1 i ([] ++ deliveries_of_proposal cm4 0 Q3 ppA ++ ext))).
+Proof. exact proposal_example. Qed.
+Print Assumptions C05_proposal_example.
